@@ -15,6 +15,29 @@ CHECKS = {
              "drop-padding / reject evaluated on the observation). Exhaustive small-scope + seeded random beyond.",
         technique="TLA+ state machine + TLC exhaustive model checking; TLC trace validation of recorded tokenizer calls",
         ref="5/C11"),
+    "C03": dict(
+        text="The documented grammar is written as a reference parser in TLA+ (Grammar.tla, from the docs and the property text, not from the code). "
+             "TLC explores it over all token strings up to the bound (operand-order, kinds-only and variable lemmas) and emits every sentence; all token "
+             "strings up to a smaller bound, all emitted sentences (three renderings, operand substitutions incl. 0/1/decimals/20-digit literals), "
+             "curated and random texts are parsed by the real parser (fresh parser; the same text twice) and TLC validates each recorded call: accepted iff "
+             "derivable; value equal to the reference AST's at 12 assignments in two prime fields (equations: complete solution sets over small fields); "
+             "operands kept in order; variables equal.",
+        technique="TLA+ reference grammar + exact field semantics; TLC exhaustive token strings; TLC trace validation of real parse calls",
+        ref="5/C03"),
+    "C10": dict(
+        text="Same PARSE traces judged by the error-contract clauses (exception class in the documented set, ValueError for unsupported characters, "
+             "returned trees well formed with correct arity, termination under a watchdog) over valid, invalid, truncated, mutated, soup, long-chain "
+             "(<= 300 operands) and deeply nested (<= 40) texts; plus the parser-object model (ParserObject.tla: caches, consumed token lists, cursor; "
+             "TLC shows the model history-free and each mechanism necessary) and TLC validation of all histories of failing/succeeding parses up to the bound.",
+        technique="TLA+ grammar/error contract + parser-object state machine; TLC model checking with necessity variants; TLC trace validation",
+        ref="5/C10"),
+    "C12": dict(
+        text="ParserObject.tla models the long-lived parser with token lists as mutable objects (cache aliasing, consuming parse, client edits); TLC "
+             "checks HistoryFree / CacheIntact on all behaviours up to the bound and that removing copy-on-return or cursor reset violates them. "
+             "All histories up to the bound over parse / tokenize / failing parse / clear_cache / five kinds of list edits on one real parser, each "
+             "followed by queries of every text, are validated step by step by TLC: every result equals the fresh parser's; every returned list is a new object.",
+        technique="TLA+ object-level model of parser caches; TLC exhaustive + necessity variants; TLC trace validation of call histories",
+        ref="5/C12"),
     "C14": dict(
         text="TLC explores every binary-tree shape up to the bound (Heap.tla/MC_Heap) and checks the specification's pre/in/post orders "
              "(permutation, true depth, defining in-order property); every shape is then built from the real node classes, all three visits "
